@@ -600,69 +600,6 @@ func tmpDoneOnce(c Case, deadline time.Duration) (res Result, raced, stalled boo
 	return res, raced, !quiet
 }
 
-// ---- dispatch.panic: a panicking handler with a recover function, in a process of its own ----
-//
-// Case: kind ("fg" Add, "bg" AddBg, "tmp" AddTmp), cmd.  A wildcard recorder and a handler of
-// that kind which always panics are registered, RecoverFunc is installed; two events are run.
-// The statement: the panic does not stop later events from being delivered (and the recover
-// function is told).  An unrecovered panic in a goroutine kills the process, so the case runs
-// in a child process (Isolated): the death of the child is the verdict panic-not-isolated
-// with the case as replay, not the death of the run.
-func panicDirect(c Case) Result {
-	if len(c) < 2 {
-		return Result{Obs: "?args"}
-	}
-	kind, cmd := c[0], c[1]
-	evCmd := strings.ToUpper(cmd)
-	if evCmd == "*" {
-		evCmd = "FOO"
-	}
-	var mu sync.Mutex
-	recovered, delivered, panicked := 0, 0, 0
-	cfg := drive.BaseConfig()
-	cfg.RecoverFunc = func(_ *girc.Client, _ *girc.HandlerError) { mu.Lock(); recovered++; mu.Unlock() }
-	cl := girc.New(cfg)
-	cl.Handlers.Add("*", func(_ *girc.Client, _ girc.Event) { mu.Lock(); delivered++; mu.Unlock() })
-	boom := func() { mu.Lock(); panicked++; mu.Unlock(); panic("c06: handler panic") }
-	switch kind {
-	case "bg":
-		cl.Handlers.AddBg(cmd, func(_ *girc.Client, _ girc.Event) { boom() })
-	case "tmp":
-		cl.Handlers.AddTmp(cmd, 0, func(_ *girc.Client, _ girc.Event) bool { boom(); return false })
-	default:
-		cl.Handlers.Add(cmd, func(_ *girc.Client, _ girc.Event) { boom() })
-	}
-	count := func() (int, int, int) { mu.Lock(); defer mu.Unlock(); return recovered, delivered, panicked }
-	oracle := ""
-	for round := 1; round <= 2; round++ {
-		base := runtime.NumGoroutine()
-		cl.RunHandlers(&girc.Event{Command: evCmd})
-		if !c06Quiesce(base) && oracle == "" {
-			oracle = "handlers-never-finish: the goroutines of the handlers made no progress for a minute"
-		}
-		// the recover function has been told about every panic so far
-		if !c06Await(func() bool { r, _, p := count(); return r >= p }, func() string {
-			r, d, p := count()
-			return itoa(r) + "/" + itoa(d) + "/" + itoa(p)
-		}, c06StallLimit) && oracle == "" {
-			oracle = "panic-not-isolated: a handler panicked and the recover function was never called"
-		}
-	}
-	r, d, p := count()
-	if oracle == "" && (d != 2 || p != 2 || r != 2) {
-		oracle = fmt.Sprintf("panic-not-isolated: two events, the wildcard handler saw %d, the panicking handler ran %d times, the recover function was called %d times", d, p, r)
-	}
-	return Result{Obs: fmt.Sprintf("recovered=%d;delivered=%d;panicker=%d", r, d, p), Oracle: oracle, Sig: kind}
-}
-
-func runPanicCase(c Case) Result {
-	res := Isolated("dispatch.panic", c, panicDirect)
-	if strings.HasPrefix(res.Oracle, "process-death:") {
-		res.Oracle = "panic-not-isolated: with a recover function installed the panic of the handler killed the process — " + strings.TrimPrefix(res.Oracle, "process-death: ")
-	}
-	return res
-}
-
 func init() {
 	Register(&Suite{
 		Name: "dispatch.table",
@@ -716,23 +653,5 @@ func init() {
 			return Case{Pick(r, "d", "r"), Pick(r, "-", "R", "C", "X"), Pick(r, "FOO", "Foo", "bar", "*", "PRIVMSG")}
 		},
 		Run: runTmpDone,
-	})
-	Register(&Suite{
-		Name: "dispatch.panic",
-		Prop: []string{"C06"},
-		Fixed: func() []Case {
-			var out []Case
-			for _, k := range []string{"fg", "bg", "tmp"} {
-				for _, cmd := range []string{"FOO", "foo", "*"} {
-					out = append(out, Case{k, cmd})
-				}
-			}
-			return out
-		},
-		Exhaustive: "every kind of handler (Add, AddBg, AddTmp) panicking with a recover function installed, on a command and on the wildcard",
-		Gen: func(r *rand.Rand) Case {
-			return Case{Pick(r, "fg", "bg", "tmp"), Pick(r, "FOO", "Foo", "bar", "*", "PRIVMSG", "notice")}
-		},
-		Run: runPanicCase,
 	})
 }
